@@ -294,6 +294,18 @@ package parser
 //@   ensures [C18:cmd-fresh] result2 == nil ==> (result0 != nil && fresh(result0))
 //@   ensures [C20:stack-balanced] result2 == nil ==> (SameStack(p.breakStack, old(p.breakStack)) && SameStack(p.continueStack, old(p.continueStack)))
 //@   loopinv [C20:stack-balanced-inv] SameStack(p.breakStack, old(p.breakStack)) && SameStack(p.continueStack, old(p.continueStack))
+// C10: every turn of the argument loop consumes one source token (or one inline text / moves() operator) and
+// accounts for it: a comma closes the current argument, anything else adds exactly one piece to it - the literal of
+// a parenthesis, an empty placeholder for hoisted content, the constant-substituted literal otherwise
+//@   ensures [C10:name] result2 == nil ==> (result0.Name != nil && result0.Name.Value == old(p.curToken.Literal) && result0.Token == old(p.curToken))
+//@   loop 1
+//@     invariant [C10:name-inv] command.Name != nil && fresh(command.Name) && command.Name.Value == old(p.curToken.Literal) && command.Token == old(p.curToken)
+//@     transition [C10:one-token] prev(p.curToken.Type) == token.COMMA
+//@        ? (command.Args == snoc(prev(command.Args), joinStr(prev(argParts), " ")) && len(argParts) == 0)
+//@        : (command.Args == prev(command.Args) && argParts == snoc(prev(argParts),
+//@             ((prev(p.curToken.Type) == token.LPAREN || prev(p.curToken.Type) == token.RPAREN) ? prev(p.curToken.Literal)
+//@              : ((prev(p.curToken.Type) == token.FORMAT || prev(p.curToken.Type) == token.STRING || prev(p.curToken.Type) == token.STRINGTYPE || prev(p.curToken.Type) == token.MOVES) ? ""
+//@              : (indom(p.constants, prev(p.curToken.Literal)) ? p.constants[prev(p.curToken.Literal)] : prev(p.curToken.Literal))))))
 //@ end
 
 //@ func (p *Parser) tryParseLabelStatement
